@@ -167,3 +167,122 @@ func firstDiffBytes(a, b []byte) int {
 	}
 	return n
 }
+
+// gateConn: the first Write blocks until released (a peer that is not reading); every Write takes a moment.
+type gateConn struct {
+	duplexConn
+	gate    chan struct{}
+	entered chan struct{}
+	first   sync.Once
+	slow    time.Duration
+}
+
+func (g *gateConn) Write(p []byte) (int, error) {
+	held := false
+	g.first.Do(func() { held = true })
+	if held && g.gate != nil {
+		close(g.entered)
+		<-g.gate
+	}
+	if g.slow > 0 {
+		time.Sleep(g.slow)
+	}
+	return g.duplexConn.Write(p)
+}
+
+// runTwoWriters: the read+write buffering wrapper guards its buffered writer with a lock of its own (Close may run next to a
+// writer), so two goroutines may use it at the same time. (a) Flush called while another goroutine's Write is stuck in the
+// connection: once that Flush has returned, the bytes of every Write that had completed before it are with the peer.
+// (b) a Write concurrent with a multi-slice Writev: the peer's stream is one of the two call orders, never a mix.
+func runTwoWriters(c *core.Ctx) {
+	total := c.Scale(40, 800)
+	for i := 0; i < total; i++ {
+		if !c.Mine(i) {
+			continue
+		}
+		id := fmt.Sprintf("two-writers%d", i)
+		if !c.Case(id) {
+			continue
+		}
+		rng := c.Rand("two-writers", i)
+		size := []int{16, 64, 256}[i%3]
+		if i%2 == 0 {
+			// (a)
+			conn := &gateConn{duplexConn: duplexConn{rd: make(chan byte), closed: make(chan struct{})}, gate: make(chan struct{}), entered: make(chan struct{})}
+			tr := transport.NewTransport(conn, size, size)
+			first := bytes.Repeat([]byte{'h'}, 1+rng.Intn(size-1))
+			tr.Write(append([]byte(nil), first...))
+			big := bytes.Repeat([]byte{'B'}, size+rng.Intn(2*size))
+			var wg sync.WaitGroup
+			wg.Add(1)
+			go func() { defer wg.Done(); tr.Write(append([]byte(nil), big...)) }()
+			select {
+			case <-conn.entered:
+			case <-time.After(5 * time.Second):
+				c.Inconclusive(id, "second writer never reached the connection")
+				close(conn.gate)
+				wg.Wait()
+				continue
+			}
+			type res struct {
+				err  error
+				snap []byte
+			}
+			done := make(chan res, 1)
+			go func() { err := tr.Flush(); done <- res{err, conn.snapshot()} }()
+			var r res
+			select {
+			case r = <-done: // returned while the other Write is still stuck
+			case <-time.After(20 * time.Millisecond):
+				close(conn.gate)
+				conn.gate = nil
+				r = <-done
+			}
+			if conn.gate != nil {
+				close(conn.gate)
+			}
+			wg.Wait()
+			c.Count("two_writer_flush_checks", 1)
+			c.Sig("two-writers", "flush", size)
+			if r.err == nil && !bytes.Contains(r.snap, first) {
+				c.Violation("C17:flush-returned-before-earlier-write-was-delivered", id,
+					fmt.Sprintf("NewTransport(conn,%d,%d): Write(%d bytes) completed, another goroutine's Write(%d bytes) was stuck in the connection, Flush returned nil - and the peer had received %d bytes, not containing the first write", size, size, len(first), len(big), len(r.snap)), nil)
+			}
+			tr.Close()
+			continue
+		}
+		// (b)
+		conn := &gateConn{duplexConn: duplexConn{rd: make(chan byte), closed: make(chan struct{})}, slow: 200 * time.Microsecond}
+		tr := transport.NewTransport(conn, size, size)
+		var vec transport.Buffers
+		var vbytes []byte
+		for k, n := 0, 4+rng.Intn(10); k < n; k++ {
+			p := bytes.Repeat([]byte{byte('a' + k)}, size+rng.Intn(size))
+			vec = append(vec, append([]byte(nil), p...))
+			vbytes = append(vbytes, p...)
+		}
+		zz := []byte("ZZZZ")
+		var wg sync.WaitGroup
+		wg.Add(2)
+		go func() { defer wg.Done(); tr.Writev(vec) }()
+		go func() {
+			defer wg.Done()
+			for k := 0; k < 10000 && len(conn.snapshot()) == 0; k++ {
+				runtime.Gosched()
+			}
+			tr.Write(append([]byte(nil), zz...))
+		}()
+		wg.Wait()
+		tr.Flush()
+		got := conn.snapshot()
+		c.Count("two_writer_order_checks", 1)
+		c.Sig("two-writers", "order", size, len(vec))
+		a := append(append([]byte(nil), vbytes...), zz...)
+		b := append(append([]byte(nil), zz...), vbytes...)
+		if !bytes.Equal(got, a) && !bytes.Equal(got, b) {
+			c.Violation("C17:concurrent-write-lands-inside-a-vectored-write", id,
+				fmt.Sprintf("NewTransport(conn,%d,%d): a %d-slice Writev (%d bytes) and a concurrent 4-byte Write: the peer's stream (%d bytes) is neither vector+write nor write+vector (the write sits at offset %d)", size, size, len(vec), len(vbytes), len(got), bytes.Index(got, zz)), nil)
+		}
+		tr.Close()
+	}
+}
